@@ -3,7 +3,7 @@ from harness import common as C
 from harness import l2
 
 FILES = ["Engine/Toposort.v", "Engine/ToposortProof.v", "Engine/Tagged.v", "Engine/Tower.v",
-         "Engine/Run08.v", "Engine/TaggedProof.v", "Props/C08.v"]
+         "Engine/Run08.v", "Engine/TaggedProof.v", "Engine/TowerAlg.v", "Engine/FwdCorrect.v", "Engine/FwdStep.v", "Engine/FwdEval.v", "Props/C08.v"]
 RULE = ("random closed programs of the object language with nested grad / forward-mode derivative operators "
         "(depth 2..4, every mode assignment arises), inner bodies closing over any subset of the enclosing "
         "variables, value-steered branches; plus a systematic closure family (one binary primitive - operators and a "
